@@ -810,7 +810,7 @@ int main(int argc, char* argv[])
         const auto loss = std::shared_ptr<loss_t>(loss_t::all().get(loss_id));
         {
             auto model = std::make_shared<gboost_model_t>();
-            model->parameter("gboost::max_rounds") = reduced ? 5 : 12;
+            model->parameter("gboost::max_rounds") = reduced ? 10 : 12;
             model->parameter("gboost::patience")   = 3;
             rwlearners_t prototypes;
             prototypes.emplace_back(wlearner_t::all().get("affine"));
